@@ -114,7 +114,7 @@ type Node struct {
 type Block struct {
 	File     string
 	Top      []*Node
-	TopAttrs []*Attr // top level ATTRIBUTE blocks (-a)
+	TopAttrs []*Attr  // top level ATTRIBUTE blocks (-a)
 	Other    []string // names of skipped top-level blocks (SUPER_BLOCK, FILE_CONTENTS, ...)
 }
 
@@ -575,13 +575,13 @@ func (p *parser) attribute() *Attr {
 }
 
 var (
-	stdIntRE   = regexp.MustCompile(`^H5T_STD_([IUB])(8|16|32|64)(BE|LE)$`)
-	ieeeRE     = regexp.MustCompile(`^H5T_IEEE_F(16|32|64)(BE|LE)$`)
-	complexRE  = regexp.MustCompile(`^H5T_COMPLEX_IEEE_F(16|32|64)(BE|LE)$`)
-	bfloatRE   = regexp.MustCompile(`^H5T_FLOAT_BFLOAT16(BE|LE)$`)
-	dimRE      = regexp.MustCompile(`^\[(\d+)\]`)
-	strSizeRE  = regexp.MustCompile(`STRSIZE\s+(\d+|H5T_VARIABLE)\s*;`)
-	strPadRE   = regexp.MustCompile(`STRPAD\s+H5T_STR_(NULLTERM|NULLPAD|SPACEPAD)\s*;`)
+	stdIntRE  = regexp.MustCompile(`^H5T_STD_([IUB])(8|16|32|64)(BE|LE)$`)
+	ieeeRE    = regexp.MustCompile(`^H5T_IEEE_F(16|32|64)(BE|LE)$`)
+	complexRE = regexp.MustCompile(`^H5T_COMPLEX_IEEE_F(16|32|64)(BE|LE)$`)
+	bfloatRE  = regexp.MustCompile(`^H5T_FLOAT_BFLOAT16(BE|LE)$`)
+	dimRE     = regexp.MustCompile(`^\[(\d+)\]`)
+	strSizeRE = regexp.MustCompile(`STRSIZE\s+(\d+|H5T_VARIABLE)\s*;`)
+	strPadRE  = regexp.MustCompile(`STRPAD\s+H5T_STR_(NULLTERM|NULLPAD|SPACEPAD)\s*;`)
 )
 
 func unknownType(text string) *DType { return &DType{Kind: "unknown", Text: text} }
